@@ -1,5 +1,7 @@
 """C10 - extra corpus for R3 (the Python side of the text round trip), R8 (the parse tree is not modified on its way to
-the reconstructor) and R7 (ignored terminals keep lexical precedence) - the R8 / R7 entries are at the end of the file.
+the reconstructor), R7 (ignored terminals keep lexical precedence), R9 (statement forms per block context), R10 (every
+keyword / option word is lexed whole) and R11 (every node is printed by lark's tree matcher) - the R8 / R7 / R9 / R10 / R11
+entries are at the end of the file, each group with its own comment.
 
 R3 locates the post-processor by role (the callable handed to `Reconstructor.reconstruct`) and decides token preservation
 by an inductive argument over one arbitrary iteration of its loop over the items (path-wise value flow with symbolic
@@ -432,3 +434,86 @@ T("C10", "twin-option-terminal-composed", G, 'x', 'x',
          (G, 'http_config_options: "set" "headers" string ";"', 'TCP_OPTION: "tcp_port" | "tcp_frame_header"\n\nhttp_config_options: "set" "headers" string ";"')])
 T("C10", "twin-transform-alternatives-reordered", G, 'stage_transform: "prepend" string ";"       -> prepend\n    | "append" string ";"                   -> append\n    | "strrep" string string ";"            -> strrep\n',
   'stage_transform: "strrep" string string ";"  -> strrep\n    | "append" string ";"                   -> append\n    | "prepend" string ";"                  -> prepend\n')
+
+# ---------------------------------------------------------------------------------------------------- R10: every keyword / option word is lexed whole
+# python's alternation is leftmost-first; lark orders longest-first only inside one group of string alternatives and orders
+# the terminals of a state by (priority, width, length, name).  Mutants: the order is lost in another way than in the seeded
+# change (a prefix family split between the OPTION terminal and a sub-terminal, a hand-written regexp alternation with the
+# short word first, a priority on the shorter of two keywords of one block).  Twins: the same regroupings with every prefix
+# family kept together / the longer word first / the priority on the longer keyword.
+M("C10", "pipename-family-split-over-subterminal", G, 'x', 'x', "C10.R10",
+  edits=[(G, '    | "pipename"\n    | "pipename_stager"\n', '    | PIPE_OPTION\n    | "pipename_stager"\n'),
+         (G, 'http_config_options: "set" "headers" string ";"', 'PIPE_OPTION: "pipename" | "ssh_pipename" | "smb_frame_header"\n\nhttp_config_options: "set" "headers" string ";"'),
+         (G, '    | "smb_frame_header"\n', ''), (G, '    | "ssh_pipename"\n', '')])
+M("C10", "regexp-alternation-short-word-first", G, '    | "spawnto"                 // deprecated since Cobalt Strike 3.6\n    | "spawnto_x86"             // moved to post-ex since Cobalt Strike 3.14\n'
+  '    | "spawnto_x64"             // moved to post-ex since Cobalt Strike 3.14\n', '    | /spawnto|spawnto_x86|spawnto_x64/\n', "C10.R10")
+M("C10", "priority-on-the-shorter-execute-keyword", G, IMPORT_WS, 'x', "C10.R10",
+  edits=[(G, '    | "NtQueueApcThread" ";"                -> ntqueueapcthread\n', '    | _NTQUEUEAPCTHREAD ";"                 -> ntqueueapcthread\n'),
+         (G, IMPORT_WS, '_NTQUEUEAPCTHREAD.1: "NtQueueApcThread"\n\n' + IMPORT_WS)])
+T("C10", "twin-option-groups-keep-prefix-families-together", G, 'x', 'x',
+  edits=[(G, '    | "spawnto"                 // deprecated since Cobalt Strike 3.6\n    | "spawnto_x86"             // moved to post-ex since Cobalt Strike 3.14\n'
+          '    | "spawnto_x64"             // moved to post-ex since Cobalt Strike 3.14\n', '    | SPAWN_OPTION\n'),
+         (G, '    | "pipename"\n    | "pipename_stager"\n', '    | PIPE_OPTION\n'),
+         (G, 'http_config_options: "set" "headers" string ";"', 'SPAWN_OPTION: "spawnto" | "spawnto_x86" | "spawnto_x64"\nPIPE_OPTION: "pipename" | "pipename_stager"\n\nhttp_config_options: "set" "headers" string ";"')])
+T("C10", "twin-regexp-alternation-long-word-first", G, '    | "spawnto"                 // deprecated since Cobalt Strike 3.6\n    | "spawnto_x86"             // moved to post-ex since Cobalt Strike 3.14\n'
+  '    | "spawnto_x64"             // moved to post-ex since Cobalt Strike 3.14\n', '    | /spawnto_x86|spawnto_x64|spawnto/\n')
+T("C10", "twin-priority-on-the-longer-execute-keyword", G, IMPORT_WS, 'x',
+  edits=[(G, '    | "NtQueueApcThread-s" ";"              -> ntqueueapcthread_s\n', '    | _NTQUEUEAPCTHREAD_S ";"                -> ntqueueapcthread_s\n'),
+         (G, IMPORT_WS, '_NTQUEUEAPCTHREAD_S.1: "NtQueueApcThread-s"\n\n' + IMPORT_WS)])
+
+# ---------------------------------------------------------------------------------------------------- R11: every node is printed by lark's tree matcher
+# A package subclass of lark's Reconstructor whose `_reconstruct` has a path that does not hand the node to the inherited
+# method prints that node by itself: the keywords / punctuation filtered out of the tree are not in the node.  Mutants:
+# another node name, another way of writing the shortcut (a loop over the children, a non-generator override with the test
+# inverted, an intermediate base class, a module-level reconstructor object) than the seeded change.  Twins: a subclass that
+# overrides nothing of lark's API, an override that only delegates, the shortcut restricted to token-only nodes by a test
+# on the children (undecided), a subclass with a constructor of its own (undecided).
+def _recon(cls_src, ret):
+    return [(F, CLASS_HEAD, cls_src + '\n\n' + CLASS_HEAD), (F, RETURN, ret)]
+
+
+M("C10", "reconstructor-shortcut-for-uri-nodes", F, 'x', 'x', "C10.R11", edits=_recon(
+    'class FastReconstructor(Reconstructor):\n'
+    '    def _reconstruct(self, tree):\n'
+    '        if tree.data in ("uri_x86", "uri_x64"):\n'
+    '            for child in tree.children:\n'
+    '                yield from child.children\n'
+    '            return\n'
+    '        yield from super()._reconstruct(tree)\n',
+    '        return FastReconstructor(c2profile_parser).reconstruct(self.tree, postproc)\n'))
+M("C10", "reconstructor-shortcut-inverted-test-module-level-object", F, 'x', 'x', "C10.R11", edits=_recon(
+    'class _CountingReconstructor(Reconstructor):\n'
+    '    created = 0\n\n\n'
+    'class ProfileWriter(_CountingReconstructor):\n'
+    '    def _reconstruct(self, tree):\n'
+    '        if tree.data != "string":\n'
+    '            return super()._reconstruct(tree)\n'
+    '        return iter(tree.children)\n\n\n'
+    '_PROFILE_WRITER = ProfileWriter(c2profile_parser)\n',
+    '        return _PROFILE_WRITER.reconstruct(self.tree, postproc)\n'))
+T("C10", "twin-reconstructor-subclass-without-override", F, 'x', 'x', edits=_recon(
+    'class ProfileReconstructor(Reconstructor):\n'
+    '    """The reconstructor of Malleable C2 profiles."""\n\n'
+    '    grammar_name = "c2profile.lark"\n\n'
+    '    def describe(self):\n'
+    '        return "reconstructor for " + self.grammar_name\n',
+    '        return ProfileReconstructor(c2profile_parser).reconstruct(self.tree, postproc)\n'))
+T("C10", "twin-reconstructor-override-only-delegates", F, 'x', 'x', edits=_recon(
+    'class ProfileReconstructor(Reconstructor):\n'
+    '    def _reconstruct(self, tree):\n'
+    '        self.nodes_seen = getattr(self, "nodes_seen", 0) + 1\n'
+    '        yield from super()._reconstruct(tree)\n',
+    '        return ProfileReconstructor(c2profile_parser).reconstruct(self.tree, postproc)\n'))
+T("C10", "twin-reconstructor-shortcut-for-token-only-leaves", F, 'x', 'x', edits=_recon(
+    'class ProfileReconstructor(Reconstructor):\n'
+    '    def _reconstruct(self, tree):\n'
+    '        if tree.data == "string" and len(tree.children) == 1 and isinstance(tree.children[0], Token):\n'
+    '            yield from tree.children\n'
+    '        else:\n'
+    '            yield from super()._reconstruct(tree)\n',
+    '        return ProfileReconstructor(c2profile_parser).reconstruct(self.tree, postproc)\n'))
+T("C10", "twin-reconstructor-subclass-own-constructor", F, 'x', 'x', edits=_recon(
+    'class ProfileReconstructor(Reconstructor):\n'
+    '    def __init__(self):\n'
+    '        super().__init__(c2profile_parser)\n',
+    '        return ProfileReconstructor().reconstruct(self.tree, postproc)\n'))
